@@ -690,6 +690,15 @@ int xmpp_connect_client(xmpp_conn_t *conn,
     if (!domain)
         return XMPP_EMEM;
 
+    /* the domain is what the server's certificate is checked against: an
+     * empty one switches the host name check off, a leading dot makes it
+     * match every sub-domain */
+    if (domain[0] == '\0' || domain[0] == '.') {
+        strophe_error(conn->ctx, "xmpp", "JID has no usable domain.");
+        strophe_free(conn->ctx, domain);
+        return XMPP_EINVOP;
+    }
+
     if (!conn->sm_state) {
         conn->sm_state = strophe_alloc(conn->ctx, sizeof(*conn->sm_state));
         if (!conn->sm_state)
